@@ -423,7 +423,12 @@ func framesCaseBody(c *lib.Ctx, fs flowSpec, nsess int, ops []op, early bool, sc
 		if !(early && e.sess == 0) {
 			k := evKey{e.sess, e.key, e.inb == (e.key.in >= 0)}
 			seen[k]++
-			if want := r.ss[e.sess].ip.reqs[portReq{e.key.sym, e.key.in < 0, t.names[e.key]}]; seen[k] > want {
+			// an answer event is an answer only if a request of the port is still unanswered
+			orphan := !k.req && seen[k] > seen[evKey{e.sess, e.key, true}]
+			if want := r.ss[e.sess].ip.reqs[portReq{e.key.sym, e.key.in < 0, t.names[e.key]}]; seen[k] > want || orphan {
+				if orphan {
+					seen[k]--
+				}
 				c.Hit("frames-hook-fired-more-often-than-requests-passed")
 				trace = append(trace, fmt.Sprintf("# hook call beyond the %d requests of port %v (%s) in session %d: packet %d", want, e.key, t.names[e.key], e.sess, e.pck))
 				continue
